@@ -18,17 +18,25 @@ def fmtWorld (E : Env) (pt : Savepoint) (w : Spec.World) : String :=
     ([toString pt.pos.off, toString pt.pos.line, toString pt.pos.col, toString w.errs.length] ++ w.errs.map hexOfString ++
      [if E.useState then fmtStore w.state else "0", fmtStore w.global, toString w.trace.length] ++ w.trace.reverse.map fmtEvent)
 
+/-- what `Parse` returns according to the result contract `Spec.finish` (C11_parse_contract): the complete error list,
+    in order, including the synthesised "no match" error and a recovered panic -/
+def fmtFinal (f : Spec.Final) : String :=
+  match f with
+  | .oof => "final oof"
+  | .ret _ errs => " ".intercalate (["final", "ret", toString errs.length] ++ errs.map hexOfString)
+  | .panic _ errs => " ".intercalate (["final", "panic", toString errs.length] ++ errs.map hexOfString)
+
 def runSpec (c : Case) (tl : Rune → Rune) : String :=
   if !applicable c then s!"spec {c.id} na" else
   let E := envOfCase c tl
   match Spec.parse E c.fuel with
   | none => s!"spec {c.id} na"
   | some .oof => s!"spec {c.id} oof"
-  | some (.panic p w) => s!"spec {c.id} panic {fmtPanic p} {fmtWorld E RT.pt0 w}"
-  | some (.fail _ w) =>
+  | some (.panic p w) => s!"spec {c.id} panic {fmtPanic p} {fmtWorld E RT.pt0 w} {fmtFinal (Spec.finish E (.panic p w))}"
+  | some (.fail env w) =>
     let pt := (Spec.advance E { rule := none, handlers := [] } RT.pt0 (Spec.initWorld E)).1
-    s!"spec {c.id} fail nil {fmtWorld E pt w}"
-  | some (.ok v pt _ w) => s!"spec {c.id} ok {fmtVal v} {fmtWorld E pt w}"
+    s!"spec {c.id} fail nil {fmtWorld E pt w} {fmtFinal (Spec.finish E (.fail env w))}"
+  | some (.ok v pt env w) => s!"spec {c.id} ok {fmtVal v} {fmtWorld E pt w} {fmtFinal (Spec.finish E (.ok v pt env w))}"
 
 end SpecProtocol
 end PV
